@@ -115,9 +115,8 @@ def budget (lim e : Nat) : Nat := lim + e
   `executeQuery` derives `ctx, cancel := context.WithCancel(qry.Context())`, hands `ctx` to every execution
   (`go q.run(ctx, …)`), returns the FIRST iter that an execution puts on `results` (capacity 1) — or `ctx.Err()`
   when the caller's context is done first — and cancels `ctx` on its way out (`defer cancel()`).
-  Whether that cancellation reaches an attempt depends on the context the attempt runs under:
-  `Conn.executeQuery(ctx, qry)` passes `ctx` on to `Conn.exec` (`derived = true`), while `Conn.executeBatch(ctx, b)`
-  calls `c.exec(batch.Context(), …)` — the caller's context, not the executor's (`derived = false`).
+  Every attempt runs under that context: `Conn.executeQuery(ctx, qry)` and (since the repair of KF-C13-2)
+  `Conn.executeBatch(ctx, b)` pass `ctx` on to `Conn.exec`.
   An attempt on a context that is done returns `ctx.Err()` before anything is written (and is still counted). -/
 
 /-- what the caller of `executeQuery` holds -/
@@ -141,7 +140,7 @@ inductive ActC where
 deriving DecidableEq, Repr
 
 /-- the context the attempts run under is done -/
-def MC.attDone (derived : Bool) (c : MC) : Bool := c.callerDone || (c.execDone && derived)
+def MC.attDone (c : MC) : Bool := c.callerDone || c.execDone
 
 /-- a step of an execution whose attempt context is done: the attempt it goes on to make is dead -/
 def deaden : Act → Act
@@ -173,22 +172,21 @@ def returned (pol : Option Policy) (m : M) : Act → Option CRes
 
 def initC (c0 hosts e : Nat) : MC := { m := init c0 hosts e }
 
-/-- `derived` = the statement's attempts run under the executor's derived context (Query) rather than under
-    the caller's (Batch). The first execution that returns while `executeQuery` is still waiting delivers the
+/-- The first execution that returns while `executeQuery` is still waiting delivers the
     result; `callerCancel` before that makes `executeQuery` return `ctx.Err()`. -/
-def stepC (pol : Option Policy) (derived : Bool) (c : MC) : ActC → MC
+def stepC (pol : Option Policy) (c : MC) : ActC → MC
   | .callerCancel =>
       { c with callerDone := true, execDone := true, result := c.result <|> some (.res .logical) }
   | .execCancel => if c.result.isSome then { c with execDone := true } else c
   | .ex a =>
-      if c.attDone derived then { c with m := step pol c.m (deaden a) }
+      if c.attDone then { c with m := step pol c.m (deaden a) }
       else match a with
         | .abort _ => c      -- no attempt fails on a context that is live
         | a => { c with m := step pol c.m a,
                         result := if c.execDone then c.result else (c.result <|> returned pol c.m a) }
 
-def runC (pol : Option Policy) (derived : Bool) (c : MC) (sched : List ActC) : MC :=
-  sched.foldl (stepC pol derived) c
+def runC (pol : Option Policy) (c : MC) (sched : List ActC) : MC :=
+  sched.foldl (stepC pol) c
 
 /-! ### the statement's consistency level, written by `rt.Attempt` (DowngradingConsistencyRetryPolicy) from
     whichever execution takes a retry decision and read by whichever execution builds the next request frame -/
@@ -208,21 +206,21 @@ def deciding (attDone : Bool) : ActC → Option Nat
   | _ => none
 
 /-- the consistency after the step: `Attempt` answering true with `Attempts() = cnt` sets `newCons cnt` -/
-def consAfter (pol : Option Policy) (derived : Bool) (k : MK) (a : ActC) : Nat :=
-  match deciding (k.c.attDone derived) a, pol with
+def consAfter (pol : Option Policy) (k : MK) (a : ActC) : Nat :=
+  match deciding (k.c.attDone) a, pol with
   | some i, some p =>
       match k.c.m.exs[i]? with
       | some (.counted (.err _)) => if p.attempt k.c.m.cnt then (p.newCons k.c.m.cnt).getD k.cons else k.cons
       | _ => k.cons
   | _, _ => k.cons
 
-def stepK (pol : Option Policy) (derived : Bool) (k : MK) (a : ActC) : MK :=
-  let c' := stepC pol derived k.c a
-  let cons' := consAfter pol derived k a
+def stepK (pol : Option Policy) (k : MK) (a : ActC) : MK :=
+  let c' := stepC pol k.c a
+  let cons' := consAfter pol k a
   { c := c', cons := cons', reqCons := if c'.m.sent > k.c.m.sent then cons' :: k.reqCons else k.reqCons }
 
 def initK (c0 hosts e cons : Nat) : MK := { c := initC c0 hosts e, cons := cons }
 
-def runK (pol : Option Policy) (derived : Bool) (k : MK) (sched : List ActC) : MK := sched.foldl (stepK pol derived) k
+def runK (pol : Option Policy) (k : MK) (sched : List ActC) : MK := sched.foldl (stepK pol) k
 
 end ExecutorConc
